@@ -41,6 +41,8 @@ type Flags struct {
 	SliceThenT bool   `json:"slice_then_t"` // a T() is applied to a proper window (sparse T re-layout)
 	HasT       bool   `json:"has_t"`
 	Real       bool   `json:"real"`
+	// bin.go: r.MdotM(r, b) with b another view of the receiver's parent (C08's F-MDOTM-T seen from C10)
+	SiblingRight bool `json:"sibling_right"`
 }
 
 type coordArr [][][2]int
@@ -518,6 +520,10 @@ func hunt(o Opts) {
 			}
 			json.Unmarshal(b, &rp)
 			for _, c := range rp.Cases {
+				if c.Bin != nil {
+					h.checkBin(*c.Bin)
+					continue
+				}
 				h.check(c)
 			}
 		}
@@ -534,6 +540,17 @@ func hunt(o Opts) {
 		if o.Tier != "thorough" {
 			// 4x4 for one dense and one sparse type
 			h.exhaustiveOne(4, 4)
+		}
+		// 2b. binary operations on windows of one parent: every placement of 1x1 / 1x2 / 2x1 / 2x2 windows
+		h.exhaustiveBin(3, 3, "Float64")
+		h.exhaustiveBin(3, 4, "Real64")
+		if o.Tier == "thorough" {
+			h.exhaustiveBin(4, 4, "Int")
+			h.exhaustiveBin(4, 3, "Float32")
+		}
+		rngB := NewRng(o.Seed*1000003 + 7927).Split()
+		for i := 0; i < o.N; i++ {
+			h.checkBin(genBCase(rngB.Split(), i))
 		}
 		// 3. random deeper compositions (guarded slices only)
 		rng := NewRng(o.Seed + 7919).Split()
